@@ -230,7 +230,12 @@ class Check(PropertyCheck):
                   "pairing_is_stable_forever, signals_reach_only_pair_forever (the commands an event produced are addressed to "
                   "the pair that is registered under the event's id in EVERY later state), history_addresses_registered_streams, and "
                   "allocated_ids_unique_with_own_connect / no_data_or_reset_after_fin_or_reset_with_own_connect / "
-                  "failed_own_connect_ends_layer (the same including the layer's own connect phase), open_connection_pairs_the_stream, "
+                  "failed_own_connect_ends_layer (next event) + failed_own_connect_ends_layer_forever (every later event list) "
+                  "(the same including the layer's own connect phase), open_connection_pairs_the_stream (STEP-LOCAL and conditional: "
+                  "IF the child yields OpenConnection the partner of the same class is created - whether it does is the child's "
+                  "decision), client_stream_gets_its_server_stream(_from) (run-level, for the TIED child = C29 relay model only: after "
+                  "any history, data on an unregistered client-initiated id + completion of its start hook leaves the pair "
+                  "(id, allocator's id of the same class) registered), "
                   "no_data_or_reset_after_fin_or_reset (in the complete command history of any event sequence nothing is sent on a "
                   "(connection, stream id) after the FIN or reset mitmproxy sent on it - the CAN_WRITE guard of event_to_child, "
                   "carried through close_stream_layer, the reset preservation and the connection-close fan-out); "
@@ -255,6 +260,10 @@ class Check(PropertyCheck):
                   "unchanged in every later step (this clause catches seeds c30-1/2/3 directly); the owner of a completed hook is the "
                   "one recorded when the hook was emitted AND is predicted by the model from the position in the pending list "
                   "(`hookidx k`), no longer copied from the implementation. "
+                  "Not independent: the routing clause looks the expected target of a command up in the implementation's OWN pair "
+                  "table of that step; a wrong-but-self-consistent pairing is therefore caught only by the persistence, uniqueness "
+                  "and id-bit clauses and by the model tie, not by the routing clause. signals_reach_only_pair has three outcomes: "
+                  "no command, exactly one fault, or all commands addressed to the registered pair. "
                   "The tie is differential, not a proof.")
     technique = "Lean 4 proof (invariant over all event interleavings of the stream-id bookkeeping, children abstract) + step-wise model-vs-code correspondence via world.py"
     rule = ("schedules over stream data / FIN / reset on bidi+uni, client- and server-initiated streams (<= 6 streams), "
